@@ -151,6 +151,18 @@ check('C11', 'exploration',
       TB, 'exhaustive enumeration of a small operand space plus a deterministic boundary catalogue', 'E5',
       'DESIGN.md §4 C11')
 
+check('C13', 'exploration',
+      'For every family x kind x implementation x base container (empty, single leaf, multi-leaf) x writing '
+      'entry point ([]=, insert, setdefault, update(dict|pairs), constructor(dict|pairs), __setstate__, add, '
+      'update(list), constructor(list), |=) x 70 boundary values (every integer within 2 of +-2^31, 2^32, '
+      '+-2^63, 2^64, huge ints, bools, floats incl. +-0.0, inexact, 2^24+1, FLT_MAX, just above it, 1e39, '
+      'subnormal, underflowing, inf, nan, str, bytes of length 0..8, None, tuples, default-comparison and '
+      'custom comparable objects) as key and as value: an independent representability table decides between '
+      '"stored and reads back exactly (floats: single-precision rounding)" and "TypeError, container '
+      'unchanged"; lookups of unrepresentable keys report absence.',
+      TB, 'exhaustive enumeration of a boundary-value x entry-point cube against an independent table', 'E5',
+      'DESIGN.md §4 C13')
+
 PENDING = ['C%02d' % i for i in range(1, 20)]
 
 
